@@ -9,33 +9,35 @@ use unic_locale_impl::extensions::{ExtensionType, ExtensionsMap};
 use unic_locale_impl::Locale;
 
 fn kmap_u(e: &ExtensionsMap) -> String {
-    let keys: Vec<String> = e.unicode.keyword_keys().map(|s| s.to_string()).collect();
+    let (keys0, lf) = exact(e.unicode.keyword_keys());
+    let keys: Vec<String> = keys0.iter().map(|s| format!("{}{}", s, lf)).collect();
     keys.iter()
         .map(|k| match e.unicode.keyword(k.as_bytes()) {
-            Ok(it) => format!("{}={}", k, it.collect::<Vec<_>>().join(",")),
+            Ok(it) => { let (vals, lf2) = exact(it); format!("{}={}{}", k, vals.join(","), lf2) }
             Err(_) => format!("{}=GETTER-ERR", k),
         })
         .collect::<Vec<_>>()
         .join(";")
 }
 fn kmap_t(e: &ExtensionsMap) -> String {
-    let keys: Vec<String> = e.transform.tfield_keys().map(|s| s.to_string()).collect();
+    let (keys0, lf) = exact(e.transform.tfield_keys());
+    let keys: Vec<String> = keys0.iter().map(|s| format!("{}{}", s, lf)).collect();
     keys.iter()
         .map(|k| match e.transform.tfield(k.as_bytes()) {
-            Ok(it) => format!("{}={}", k, it.collect::<Vec<_>>().join(",")),
+            Ok(it) => { let (vals, lf2) = exact(it); format!("{}={}{}", k, vals.join(","), lf2) }
             Err(_) => format!("{}=GETTER-ERR", k),
         })
         .collect::<Vec<_>>()
         .join(";")
 }
 pub fn fmt_ext(e: &ExtensionsMap) -> String {
-    let attrs: Vec<&str> = e.unicode.attributes().collect();
-    let tags: Vec<&str> = e.private.tags().collect();
+    let (attrs, lfa) = exact(e.unicode.attributes());
+    let (tags, lft) = exact(e.private.tags());
     let tl = e.transform.tlang().map(fmt_li).unwrap_or_else(|| "-".into());
     let b = |x: bool| if x { "1" } else { "0" };
     format!(
-        "U[{}|{}] T[{}|{}] X[{}] E{}{}{}{}",
-        attrs.join(","), kmap_u(e), tl, kmap_t(e), tags.join(","),
+        "U[{}{}|{}] T[{}|{}] X[{}{}] E{}{}{}{}",
+        attrs.join(","), lfa, kmap_u(e), tl, kmap_t(e), tags.join(","), lft,
         b(e.unicode.is_empty()), b(e.transform.is_empty()), b(e.private.is_empty()), b(e.is_empty())
     )
 }
@@ -54,6 +56,10 @@ pub fn locale(v: &[u8]) -> String {
     match unic_locale_impl::parser::parse_locale(v) {
         Ok(l2) => if r.as_ref().ok() != Some(&l2) { return "INCONSISTENT parse_locale vs from_bytes".into(); },
         Err(_) => if r.is_ok() { return "INCONSISTENT parse_locale vs from_bytes".into(); },
+    }
+    if let Ok(l) = &r {
+        if let Some(e) = fmt_flags(l) { return e; }
+        if let Some(e) = fmt_flags(&l.extensions) { return e; }
     }
     match r { Ok(l) => format!("OK {}", fmt_loc(&l)), Err(_) => "ERR".into() }
 }
@@ -116,12 +122,7 @@ pub fn both(v: &[u8]) -> String {
 pub fn loc_prefix(v: &[u8]) -> String {
     match Locale::from_bytes(v) {
         Ok(l) => {
-            let mut pre: Vec<&[u8]> = Vec::new();
-            for t in v.split(|c| *c == b'-' || *c == b'_') {
-                if t.len() == 1 { break; }
-                pre.push(t);
-            }
-            let joined: Vec<u8> = pre.join(&b'-');
+            let joined: Vec<u8> = before_first_singleton(v);
             match LanguageIdentifier::from_bytes(&joined) {
                 Ok(li) => if li == l.id && li.to_string() == l.id.to_string() { "PRE-SAME".into() } else { "PRE-DIFF".into() },
                 Err(_) => "PRE-ERR".into(),
@@ -175,6 +176,34 @@ pub fn loc_into_parts(v: &[u8]) -> String {
         }
         Err(_) => "BADARG".into(),
     }
+}
+fn before_first_singleton(v: &[u8]) -> Vec<u8> {
+    let mut pre: Vec<&[u8]> = Vec::new();
+    for t in v.split(|c| *c == b'-' || *c == b'_') {
+        if t.len() == 1 { break; }
+        pre.push(t);
+    }
+    pre.join(&b'-')
+}
+/// a Locale BUILT through the API rather than parsed: the identifier read from the text before the first
+/// singleton becomes both the id and (through set_tlang) the tlang; then C17 (into_parts / from_parts) and
+/// C05 (to_string / parse) on that value.  Reaches tlang shapes that a defective parser would never produce.
+pub fn loc_built(v: &[u8]) -> String {
+    let li = match LanguageIdentifier::from_bytes(&before_first_singleton(v)) { Ok(x) => x, Err(_) => return "BADARG".into() };
+    let mut loc = Locale::from(li.clone());
+    if loc.extensions.transform.set_tlang(li.clone()).is_err() { return "LAWFAIL set_tlang rejected a parsed identifier".into(); }
+    if loc.extensions.transform.tlang() != Some(&li) { return "LAWFAIL tlang() differs from what set_tlang stored".into(); }
+    let text = loc.to_string();
+    match text.parse::<Locale>() {
+        Ok(back) => if back != loc { return format!("LAWFAIL parse(to_string) differs: {}", text); },
+        Err(_) => return format!("LAWFAIL to_string does not parse: {}", text),
+    }
+    let (lg, sc, rg, vs, ext) = loc.clone().into_parts();
+    match ext.parse::<ExtensionsMap>() {
+        Ok(e) => if Locale::from_parts(lg, sc, rg, &vs, Some(e)) != loc { return format!("LAWFAIL from_parts(into_parts) differs: {}", text); },
+        Err(_) => return format!("LAWFAIL the extension string of into_parts does not parse: {}", ext),
+    }
+    format!("OK {}", text)
 }
 pub fn loc_matches(a: &[u8], b: &[u8], ra: bool, rb: bool) -> String {
     match (Locale::from_bytes(a), Locale::from_bytes(b)) {
@@ -275,13 +304,14 @@ pub fn big_input(kind: &[u8], n: usize) -> Vec<u8> {
         b"keywords" => b"-ca-buddhist",
         b"tfields" => b"-h0-hybrid",
         b"priv" => b"-abc",
-        b"dashes" => b"-",
+        b"dashes" | b"gap" => b"-",
         b"junk" => b"-*",
         b"long" => b"a",
         _ => b"-x",
     };
     let mut v: Vec<u8> = match kind { b"attrs" | b"keywords" => b"en-u".to_vec(), b"tfields" => b"en-t".to_vec(), b"priv" => b"en-x".to_vec(), _ => b"en".to_vec() };
     for _ in 0..n { v.extend_from_slice(unit); }
+    if kind == b"gap" { v.extend_from_slice(b"u-ca-buddhist-t-de-h0-hybrid-x-a"); }
     v
 }
 pub fn big(kind: &[u8], n: &[u8]) -> String {
@@ -372,6 +402,7 @@ fn value_ops(out: &mut Out, s: &[u8]) {
     out.case("loc_roundtrip", &[s], || loc_roundtrip(s));
     out.case("loc_into_parts", &[s], || loc_into_parts(s));
     out.case("loc_conv", &[s], || loc_conv(s));
+    out.case("loc_built", &[s], || loc_built(s));
 }
 
 const HIST_ARGS: [&str; 26] = [
@@ -581,11 +612,16 @@ pub fn run(out: &mut Out, tier: &str, rng: &mut Rng) {
         out.case("li_meta", &[&m, &m2], || li_meta(&m, &m2));
     }
     out.comment("C01: very long inputs (implementation only: time and stack)");
-    for kind in ["variants", "attrs", "keywords", "tfields", "priv", "dashes", "junk", "long", "x"] {
+    for kind in ["variants", "attrs", "keywords", "tfields", "priv", "dashes", "gap", "junk", "long", "x"] {
         for n in [if thorough { 300_000usize } else { 100_000 }, 1000] {
             let ns = n.to_string();
             out.case("big", &[kind.as_bytes(), ns.as_bytes()], || big(kind.as_bytes(), ns.as_bytes()));
         }
+    }
+    // runs of millions of empty / junk subtags cost only linear time: deep enough for one stack frame per subtag
+    for kind in ["dashes", "gap", "junk"] {
+        let ns = "3000000";
+        out.case("big", &[kind.as_bytes(), ns.as_bytes()], || big(kind.as_bytes(), ns.as_bytes()));
     }
     out.comment("G6: operation histories");
     let n = if thorough { 150_000 } else { 12_000 };
